@@ -344,6 +344,10 @@ def flatten_extends(
 
 
 def extends_builtin(class_: ast.Class) -> bool:
+    if class_.type == "__builtin":
+        # An already instantiated class (e.g. a local type definition) no
+        # longer has its extends clauses, but remembers what it derives from
+        return True
     ret = False
     for extends in class_.extends:
         try:
